@@ -1706,6 +1706,13 @@ func encWanted(codec string) bool { return strHasPrefix(codec, "avc") || strHasP
 //@   wiring
 //@   callsite calcWrapTimes requires windowEndsAtStop: (cfg.StopTimeS == nil ==> arg_nowMS == nowMS && !afterStop) && (cfg.StopTimeS != nil ==> arg_nowMS == min(nowMS, *cfg.StopTimeS*1000) && afterStop == (*cfg.StopTimeS*1000 < nowMS))
 //@   callsite calcWrapTimes requires windowDepthFromCfg: cfg.TimeShiftBufferDepthS != nil ==> int(arg_tsbd) == *cfg.TimeShiftBufferDepthS * 1000000000
+//@   callsite (*asset).generateTimelineEntries requires windowAndOffsetHandedOn: arg_wt == wTimes && arg_atoMS == atoMS && arg_repID == as.Representations[0].Id
+//@   callsite (*asset).generateTimelineEntriesFromRef requires audioFollowsReference: arg_refSE == refSegEntries && arg_repID == as.Representations[0].Id && as.ContentType == "audio" && asIdx != 0
+//@   callsite adjustAdaptationSetForTimelineTime requires timeTimelineFromEntries: arg_se == se && arg_as == as && templateType == timeLineTime
+//@   callsite adjustAdaptationSetForTimelineNr requires nrTimelineFromEntries: arg_se == se && arg_as == as && arg_cfg == cfg && templateType == timeLineNumber
+//@   callsite adjustAdaptationSetForSegmentNumber requires numberTemplate: arg_as == as && arg_cfg == cfg && arg_a == a && templateType == segmentNumber
+//@   callsite calcPublishTime requires publishTimeFromFirstSet: arg_lsi == se.lsi && arg_cfg == cfg && asIdx == 0
+//@   callsite setOffsetInAdaptationSet requires offsetPerSet: arg_cfg == cfg && arg_as == as
 //@   callsite makeMPDStatic requires staticOnlyAfterStop: afterStop && cfg.StopTimeS != nil && arg1 == *cfg.StopTimeS - cfg.StartTimeS
 //@   callsite addPatchLocation requires patchOnlyWhileLive: !afterStop
 //@   callsite NewContentProtection requires notPreEncrypted: !a.refRep.PreEncrypted
